@@ -587,7 +587,9 @@ def cal_text(cal):
                     'TZOFFSETTO:' + o, f'TZNAME:D{k}', 'END:STANDARD', 'END:VTIMEZONE']
         else:
             n += 1
-            out += ['BEGIN:VEVENT', f'UID:{n}', f'DTSTART;TZID={i}:20200615T120000', 'END:VEVENT']
+            # (names of properties and parameters are case-insensitive: some of the uses are spelled otherwise)
+            spell = ('DTSTART;TZID', 'dtstart;TZID', 'DtStart;tzid', 'DTSTART;TZID')[(n + len(i)) % 4]
+            out += ['BEGIN:VEVENT', f'UID:{n}', f'{spell}={i}:20200615T120000', 'END:VEVENT']
     out.append('END:VCALENDAR')
     return '\r\n'.join(out) + '\r\n'
 
